@@ -63,6 +63,13 @@ VOCAB = [
     "+ [a] -> // TODO", "* [a] ->   // later", "+ {c} [a] -> // x", "-> // c", "@hook e // c", "@render // c", "@input // c", "@if // c",
     "@for i in // c", ":: // c", ":: A // (", "~ // c", "@start // c", "~ x = 1\x000", "~ x = '\x00'", "hello\x00{x}", ":: A\x00", "\x0c", "+ [a\x00] -> B",
     "\ufeff:: A", "a\u2028b", "~ x = \"\\", "~ x = 1 \\", "@if x:\r", "+ [a] -> B\r", "{x\r}",
+    # argument splats and stars in calls (keyword names that are not text)
+    "+ [a] -> A(**o)", "-> A(**o)", "+ [a] -> A(*s)", "+ [a] -> A(1, **o)", "* [a] -> A(x=1, **{'y': 2})", "-> A(*s, **o)", "+ [a] -> A(**o, **p)",
+    # long words in headers that do not match (a pattern that backtracks badly shows here)
+    "@for abcdefghijklmnopqrstuvwxyz_abcdefghijklmn in xs", "@for a, b, c, d, e, f, g, h, i, j, k, l, m, n, o, p of xs", "<<for abcdefghijklmnopqrstuvwxyz_abcdefghij in xs",
+    "@if aaaaaaaaaaaaaaaaaaaaaaaaaaaaaaaaaaaaaaaa bbbbbbbbbbbbbbbbbbbbbbbbbbbbbbbbbbbbbbbb", "<<if aaaaaaaaaaaaaaaaaaaaaaaaaaaaaaaaaaaaaaaaaaaaaa >",
+    "+ {aaaaaaaaaaaaaaaaaaaaaaaaaaaaaaaaaaaaaaaaaaaaaaaa [bbbbbbbbbbbbbbbbbbbbbbbbbbbbbbbbbb -> C", "@render:" + "a" * 40, "@render " + "f(" * 30,
+    "@input " + "a=\"b " * 25, ":: A(" + "x, " * 30, "{" + "a ? " * 25 + "}", "-> " + "a." * 40 + "(", "~ x = " + "(" * 40, "^" + "a:b" * 30,
     "@include", "@foo", "@", "@@", "import os", "from x import y", "from", "import", "# c", "", "   ", "\t", "#", "@endjoin", "@if x: // c", "@prefix a",
 ]
 
@@ -220,6 +227,7 @@ def nesting_probes(depths):
         out.append((f"not chain {d * 10}", ":: Start\n~ x = " + "not " * (d * 10) + "1\n"))
         out.append((f"binary chain {d * 20}", ":: Start\n~ x = " + "1+" * (d * 20) + "1\n"))
         out.append((f"lambda chain {d * 3}", ":: Start\n@if " + "lambda: " * (d * 3) + "1:\n  x\n@endif\n~ y = " + "lambda: " * (d * 3) + "1\n"))
+        out.append((f"call argument lambda chain {d * 5}", ":: Start\n+ [a] -> T(" + "lambda: " * (d * 5) + "1)\n-> T(" + "-" * (d * 40) + "1)\n\n:: T(x)\nhi\n"))
         out.append((f"expression unary chain {d * 40}", ":: Start\n{" + "-" * (d * 40) + "1}\n+ {" + "not " * (d * 10) + "1} [a] -> Start\n"))
     return out
 
